@@ -60,6 +60,21 @@ def gen_program(ch: Choices, root: str):
                     f"    d.update_hash()\n")
             val = "d"
         ret = [val, f"[{val}, x]", f"{{'v': {val}, 'x': x}}"][nest]
+        # the external value may also leave the task inside the *expression* it returns (handed
+        # on to a consumer positionally or by keyword): the cached result is then that expression
+        via = ch.choice(4, "via-expression")
+        if shallow:
+            # (with shallow validity the replayed result is the consumer's final value, which holds
+            # no external value; intermediate values are documented to be skipped)
+            via = 0
+        if via == 2:
+            ret = f"usev{i}({ret}, 1)"
+        elif via == 3:
+            ret = f"usev{i}(1, v={ret})"
+        specs[-1]["via"] = via >= 2
+        if via >= 2:
+            L.append(f"@task()\ndef usev{i}(a, v=None):\n    hit('usev{i}')\n"
+                     f"    return mix('usev{i}', repr(type(v if v is not None else a).__name__))\n\n")
         L.append(f"@task({opt})\ndef mk{i}(x):\n    hit('mk{i}', x)\n{body}    return {ret}\n\n")
         L.append(f"@task()\ndef use{i}(v):\n    hit('use{i}')\n    return mix('use{i}', repr(type(v).__name__))\n\n")
     for s in specs:
@@ -67,6 +82,8 @@ def gen_program(ch: Choices, root: str):
     calls = ", ".join(f"mk{s['i']}({s['arg']})" for s in specs)
     uses = ", ".join(f"use{s['i']}(mk{s['i']}({s['arg']}))" for s in specs if ch.coin(0.5, "use?"))
     main_opt = "check_valid='shallow'" if ch.coin(0.3, "main-shallow") else ""
+    if any(sp.get("via") for sp in specs):
+        main_opt = ""  # (a shallow ancestor would skip the intermediate values, see above)
     L.append(f"@task({main_opt})\ndef t0():\n    return [[{calls}], [{uses}]]\n")
     return RawProgram("".join(L)), specs, calls
 
